@@ -5,9 +5,9 @@ CONSTANTS
   RemoveByIdentity = FALSE
   QueueKept = TRUE
   ManifestWins = TRUE
-  ForgetUnlinked = FALSE
+  ForgetUnlinked = TRUE
   NoOverwriteOnRename = TRUE
-  AdoptListed = TRUE
+  AdoptListed = FALSE
   Export = FALSE
 INVARIANT C03_ExactCover_ModuloF14
 INVARIANT C10_NothingBeforeSave
